@@ -17,7 +17,9 @@
      try_body then every handler body - and at each LCDAnimate takes counter =
      lcd_animation_counter[name], appends (__redu_lcd_anim_<name>_<counter>, style) to
      lcd_animations[<display of name>] and increments the counter.  The statements are emitted
-     afterwards: an LCDAnimate uses the variable registered for it, an LCDTick emits one tick call per
+     afterwards, in the same order: an LCDAnimate takes the next name of its display name by the same
+     count (the running counter is shared by setup, loop and the function bodies), i.e. the variable
+     registered for it, an LCDTick emits one tick call per
      entry of lcd_animations[<display>] - all of them - and one global is declared per entry.
 
    A statement is an lcd.animate call site, any other simple statement, or a block with its bodies in
